@@ -180,13 +180,21 @@ Definition new_mgr_muts (d : dirT) (oracle : list name) : list mut :=
   | n :: _ => MFsync n :: cleanup_muts d oracle
   end.
 
-Record writer := mkW { w_t : N; w_i : N; w_pos : N; w_sid : Z; w_nch : Z }.
+Record writer := mkW { w_t : N; w_i : N; w_pos : N; w_sid : Z; w_nch : nat }.
 
+(* encodeSnapshotMetadata: a 4-byte length, then the (never empty) gob bytes of the metadata *)
 Definition begin_muts (t i G : N) : list mut :=
-  [MOpenCT (NTmp t i); MDirSync; MWrite (NTmp t i) [7]] ++ write_muts (NTmp t i) 4 G [Z.of_N t; Z.of_N i].
+  [MOpenCT (NTmp t i); MDirSync; MWrite (NTmp t i) [7]] ++
+  repeat (MWrite (NTmp t i) []) (pred (nblocks 4 G)) ++ [MWrite (NTmp t i) [Z.of_N t; Z.of_N i]].
+
+Definition chunk_tok (sid : Z) (c : nat) : list Z := [8; sid; Z.of_nat c].
 
 Definition chunk_muts (w : writer) (len : N) : list mut :=
-  write_muts (NTmp (w_t w) (w_i w)) (w_pos w) len [8; w_sid w; w_nch w + 1].
+  write_muts (NTmp (w_t w) (w_i w)) (w_pos w) len (chunk_tok (w_sid w) (S (w_nch w))).
+
+(* what a writer has put into its temporary file so far *)
+Definition content_of (t i : N) (sid : Z) (nch : nat) : list Z :=
+  [7; Z.of_N t; Z.of_N i] ++ flat_map (chunk_tok sid) (seq 1 nch).
 
 (* snapshotFileWriter.Commit: 0 = ok, 1 = rename failed (temporary file gone), 2 = Fatalf (staler than current) *)
 Definition commit_muts (s : fs) (meta : option (N * N)) (w : writer) (oracle : list name) : Z * list mut :=
@@ -200,6 +208,59 @@ Definition commit_muts (s : fs) (meta : option (N * N)) (w : writer) (oracle : l
            let m2 := m1 ++ [MRename tmp (NSnap (w_t w) (w_i w)); MDirSync] in
            (0, m2 ++ cleanup_muts (dir (run m2 s)) oracle)
        end.
+
+(* the snapshot manager's operations, with their oracle inputs *)
+Inductive pop :=
+| PBegin (t i G : N) (sid : Z)
+| PWrite (len : N)
+| PCommit (oracle : list name)
+| PAbort
+| PReopen (oracle : list name).
+
+Record pstate := mkPS { ps_fs : fs; ps_meta : option (N * N); ps_w : option writer }.
+
+Definition enc_mopen (r : mopen) : list Z :=
+  match r with
+  | MFatal => [0; 0; 0; 0; 0; 0]
+  | MNone => [1; 0; 0; 0; 0; 0]
+  | MSome t i sid c => [1; 1; Z.of_N t; Z.of_N i; sid; c]
+  end.
+
+(* one operation: new state, the mutations performed (in order), the head of the observation line *)
+Definition pop_step (p : pstate) (o : pop) : pstate * list mut * list Z :=
+  let s := ps_fs p in
+  match o with
+  | PBegin t i G sid =>
+      let tr := begin_muts t i G in
+      (mkPS (run tr s) (ps_meta p) (Some (mkW t i (4 + G) sid 0)), tr, [0])
+  | PWrite len =>
+      match ps_w p with
+      | Some w =>
+          let tr := chunk_muts w len in
+          let w' := mkW (w_t w) (w_i w) (w_pos w + len) (w_sid w) (if (len =? 0)%N then w_nch w else S (w_nch w)) in
+          (mkPS (run tr s) (ps_meta p) (Some w'), tr, [0])
+      | None => (p, [], [-1])
+      end
+  | PCommit oracle =>
+      match ps_w p with
+      | Some w =>
+          let '(err, tr) := commit_muts s (ps_meta p) w oracle in
+          (mkPS (run tr s) (if err =? 0 then Some (w_t w, w_i w) else ps_meta p) None, tr, [err])
+      | None => (p, [], [-1])
+      end
+  | PAbort =>
+      match ps_w p with
+      | Some w => let tr := [MFsync (NTmp (w_t w) (w_i w))] in (mkPS (run tr s) (ps_meta p) None, tr, [0])
+      | None => (p, [], [-1])
+      end
+  | PReopen oracle =>
+      let r := open_mgr (dir s) (fun i => f_cur (inodes s i)) in
+      match r with
+      | MFatal => (mkPS s None None, [], enc_mopen r)
+      | MNone => let tr := new_mgr_muts (dir s) oracle in (mkPS (run tr s) None None, tr, enc_mopen r)
+      | MSome t i _ _ => let tr := new_mgr_muts (dir s) oracle in (mkPS (run tr s) (Some (t, i)) None, tr, enc_mopen r)
+      end
+  end.
 
 (* ================================================================== wire *)
 
@@ -267,13 +328,6 @@ Definition probe_state (c : cfs) : list Z :=
   | OpenErr => [0]
   end.
 
-Definition enc_mopen (r : mopen) : list Z :=
-  match r with
-  | MFatal => [0; 0; 0; 0; 0; 0]
-  | MNone => [1; 0; 0; 0; 0; 0]
-  | MSome t i sid c => [1; 1; Z.of_N t; Z.of_N i; sid; c]
-  end.
-
 Definition probe_snap (c : cfs) : list Z :=
   let r := open_mgr (c_dir c) (c_data c) in
   match r with
@@ -296,6 +350,14 @@ Definition state_op (m : mstate) (o : sop) (L : Z) : mstate * list Z :=
       do_muts m (state_to_file st' (Z.to_N L)) (Some st') None None (0 :: enc_rstate st')
   end.
 
+Definition snap_op (m : mstate) (o : pop) : mstate * list Z :=
+  let '(p, tr, hd) := pop_step (mkPS (ms_fs m) (ms_meta m) (ms_w m)) o in
+  match hd with
+  | [-1] => (m, [-1])
+  | _ => (mkMS (ms_kind m) (ms_hooked m) (ps_fs p) None (ps_meta p) (ps_w p) (ms_fs m) tr,
+          hd ++ (match hd with [0; 0; 0; 0; 0; 0] => [] | _ => enc_trace (ms_hooked m) tr end))
+  end.
+
 Definition step (m : mstate) (op : list Z) : mstate * list Z :=
   match op with
   | [100; h] => (mkMS 1 (negb (h =? 0)) fs_empty None None None fs_empty [], [0])
@@ -314,40 +376,16 @@ Definition step (m : mstate) (op : list Z) : mstate * list Z :=
   | 6 :: L :: n :: ids =>
       if (ms_kind m =? 1) && (Z.of_nat (length ids) =? n) then state_op m (SFilter ids) L else (m, [-1])
   | 10 :: n :: l =>
-      if negb ((ms_kind m =? 2) && (Z.of_nat (length l) =? 2 * n)) then (m, [-1]) else
-      let s := ms_fs m in
-      let r := open_mgr (dir s) (fun i => f_cur (inodes s i)) in
-      let tr := new_mgr_muts (dir s) (dec_names 4 (Z.to_nat n) l) in
-      (match r with
-       | MFatal => (mkMS 2 (ms_hooked m) s None None None s [], enc_mopen r)
-       | MNone => do_muts m tr None None None (enc_mopen r)
-       | MSome t i _ _ => do_muts m tr None (Some (t, i)) None (enc_mopen r)
-       end)
+      if negb ((ms_kind m =? 2) && (Z.of_nat (length l) =? 2 * n)) then (m, [-1])
+      else snap_op m (PReopen (dec_names 4 (Z.to_nat n) l))
   | [11; t; i; G; sid] =>
-      if negb (ms_kind m =? 2) then (m, [-1]) else
-      let t' := Z.to_N t in let i' := Z.to_N i in
-      do_muts m (begin_muts t' i' (Z.to_N G)) None (ms_meta m) (Some (mkW t' i' (4 + Z.to_N G) sid 0)) [0]
-  | [12; len] =>
-      match ms_w m with
-      | Some w =>
-          let l := Z.to_N len in
-          let w' := mkW (w_t w) (w_i w) (w_pos w + l) (w_sid w) (if (l =? 0)%N then w_nch w else w_nch w + 1) in
-          do_muts m (chunk_muts w l) None (ms_meta m) (Some w') [0]
-      | None => (m, [-1])
-      end
+      if negb (ms_kind m =? 2) then (m, [-1])
+      else snap_op m (PBegin (Z.to_N t) (Z.to_N i) (Z.to_N G) sid)
+  | [12; len] => if negb (ms_kind m =? 2) then (m, [-1]) else snap_op m (PWrite (Z.to_N len))
   | 13 :: n :: l =>
-      match ms_w m with
-      | Some w =>
-          if negb (Z.of_nat (length l) =? 2 * n) then (m, [-1]) else
-          let '(err, tr) := commit_muts (ms_fs m) (ms_meta m) w (dec_names 4 (Z.to_nat n) l) in
-          do_muts m tr None (if err =? 0 then Some (w_t w, w_i w) else ms_meta m) None [err]
-      | None => (m, [-1])
-      end
-  | [14] =>
-      match ms_w m with
-      | Some w => do_muts m [MFsync (NTmp (w_t w) (w_i w))] None (ms_meta m) None [0]
-      | None => (m, [-1])
-      end
+      if negb ((ms_kind m =? 2) && (Z.of_nat (length l) =? 2 * n)) then (m, [-1])
+      else snap_op m (PCommit (dec_names 4 (Z.to_nat n) l))
+  | [14] => if negb (ms_kind m =? 2) then (m, [-1]) else snap_op m PAbort
   | [60; k; dmask; fv] =>
       (* the process dies at that point; the next operations run on what survived *)
       let s := crash_point (ms_pre m) (ms_ltr m) k in
